@@ -270,7 +270,7 @@ func callSubscriptionsListen(ctx context.Context, conn *jsonrpc2.Connection, met
 
 	go func() {
 		<-ctx.Done()
-		_ = cancelCall(ctx, conn, call)
+		_ = cancelCall(ctx, conn, call, params)
 	}()
 }
 
@@ -293,7 +293,7 @@ func call(ctx context.Context, conn *jsonrpc2.Connection, method string, params 
 		// Setting MCPGODEBUG=blockingcancelnotify=1 restores the previous
 		// behavior of waiting synchronously for delivery inside cancelCall.
 		if blockingcancelnotify == "1" {
-			err := cancelCall(ctx, conn, call)
+			err := cancelCall(ctx, conn, call, params)
 			return errors.Join(ctx.Err(), err)
 		}
 		conn.Retire(call, ctx.Err())
@@ -301,6 +301,7 @@ func call(ctx context.Context, conn *jsonrpc2.Connection, method string, params 
 			notifyCtx, stop := context.WithTimeout(context.WithoutCancel(ctx), notifyCancellationTimeout)
 			defer stop()
 			_ = conn.Notify(notifyCtx, notificationCancelled, &CancelledParams{
+				Meta:      cancellationMeta(params),
 				Reason:    ctx.Err().Error(),
 				RequestID: call.ID().Raw(),
 			})
@@ -325,15 +326,43 @@ func call(ctx context.Context, conn *jsonrpc2.Connection, method string, params 
 // Therefore, we choose to eagerly retire calls, removing them from the
 // outgoingCalls map, when the caller context is cancelled: if the caller will
 // never receive the response, there's no need to track it.
-func cancelCall(ctx context.Context, conn *jsonrpc2.Connection, call *jsonrpc2.AsyncCall) error {
+//
+// params are the parameters of the call being cancelled (see [cancellationMeta]).
+func cancelCall(ctx context.Context, conn *jsonrpc2.Connection, call *jsonrpc2.AsyncCall, params Params) error {
 	notifyCtx, cancelNotify := context.WithTimeout(context.WithoutCancel(ctx), notifyCancellationTimeout)
 	defer cancelNotify()
 	err := conn.Notify(notifyCtx, notificationCancelled, &CancelledParams{
+		Meta:      cancellationMeta(params),
 		Reason:    ctx.Err().Error(),
 		RequestID: call.ID().Raw(),
 	})
 	conn.Retire(call, ctx.Err())
 	return err
+}
+
+// cancellationMeta returns the `_meta` for the "notifications/cancelled"
+// notification of a call that was made with params.
+//
+// Under the >= 2026-07-28 protocol every message carries the per-request
+// protocol version, client info and client capabilities in `_meta`, and a
+// server rejects a message that lacks them (for the streamable transport, with
+// an HTTP 400 that fails the client connection). The notification is sent
+// outside the sending middleware that adds them, so they are copied from the
+// call being cancelled. For older protocols the result is nil.
+func cancellationMeta(params Params) Meta {
+	if params == nil || params.isNil() {
+		return nil
+	}
+	var meta Meta
+	for _, k := range []string{MetaKeyProtocolVersion, MetaKeyClientInfo, MetaKeyClientCapabilities} {
+		if v, ok := params.GetMeta()[k]; ok {
+			if meta == nil {
+				meta = Meta{}
+			}
+			meta[k] = v
+		}
+	}
+	return meta
 }
 
 // A LoggingTransport is a [Transport] that delegates to another transport,
